@@ -195,6 +195,21 @@ CLAIMED['C12'] = {
             'reader correspondence), Spec/C12_spec.v, extraction.',
     'technique': 'Coq proof (re-uses the C01 chunk-independence and round-trip theorems; induction over the body with the reader state generalised) + differential re-encoding runs',
 }
+CLAIMED['C08'] = {
+    'text': 'Theorems (Props/C08.v): the XML text written by the model of x12xml_simple/XMLWriter for ANY sequence of located segments '
+            'is exactly the serialisation of an abstract event sequence (refinement); that sequence is balanced, nests every segment '
+            'inside loop elements spelling out its map path, and opens a fresh loop element at the first segment of a loop also when '
+            'the loop repeats; content/attribute escaping is invertible and leaves no raw < > (\'); the element tree of one segment '
+            'converts back (model of xmlx12_simple.get_segment) to the segment with its not-used elements blanked. Premises are '
+            'machine-checked where possible: the text-based loop-prefix test of the code is proved safe for every ordered pair of '
+            'loop paths of every shipped map by evaluation over the maps regenerated on each run; two premises are shown necessary by '
+            'proved counterexamples. Not proved: that an XML parser reads the serialised events back as that tree (ElementTree is '
+            'trusted); the run checks, on the implementation, well-formedness, nesting = matched map path, labels and the full round '
+            'trip over generated documents, and compares model and implementation on whole documents and on XML trees.',
+    'design_ref': 'DESIGN.md §6 C08, §11',
+    'note': 'Trusted: Coq kernel; hand transcription of XmlOut/XmlIn/Writer; Spec/C08_spec.v; tools/gen (maps.py, c08.py); expat; extraction.',
+    'technique': 'Coq refinement proof (writer monad vs abstract XML events) + per-map vm_compute facts + extracted-model correspondence + round-trip oracle',
+}
 
 NOT_YET = {
 }
